@@ -168,9 +168,15 @@ impl FraudProof for BadEncodingFraudProof {
         let mut nmt = Nmt::default();
 
         for (n, share) in rebuilt_shares.iter().enumerate() {
-            let ns = if n < ods_width {
-                // safety: length must be correct
-                Namespace::from_raw(&share[..NS_SIZE]).unwrap()
+            // only shares of the original data square are prefixed with their namespace
+            let ns = if n < ods_width && usize::from(self.index) < ods_width {
+                let Ok(ns) = Namespace::from_raw(&share[..NS_SIZE]) else {
+                    // reconstructed original data is not a valid share, so the rebuilt axis
+                    // cannot match a root computed over valid shares
+                    // befp is legit
+                    return Ok(());
+                };
+                ns
             } else {
                 Namespace::PARITY_SHARE
             };
